@@ -71,7 +71,11 @@ def judge_de(a, b):
     if a != b and d1 == 0:
         v("zero_for_distinct", "dE(%s,%s) = 0 for distinct colours" % (a, b))
     if abs(d1 - want) > DE_TOL:
-        v("differs_from_cie", "dE2000(%s,%s) = %.5f, reference implementation gives %.5f" % (a, b, d1, want))
+        la, lb = cielab.rgb_to_lab(a), cielab.rgb_to_lab(b)
+        # CIEDE2000 is discontinuous where the two hues are exactly opposite; a pair that the allowed Lab tolerance can move
+        # across that line has two conformant values
+        if not (ciede2000.at_discontinuity(la, lb) and abs(d1 - ciede2000.delta_e_lab(la, lb, other_branch=True)) <= DE_TOL):
+            v("differs_from_cie", "dE2000(%s,%s) = %.5f, reference implementation gives %.5f" % (a, b, d1, want))
     return out
 
 
@@ -185,6 +189,17 @@ def _fast_pairs(pairs):
     return n, viol
 
 
+# saturated pairs sitting on the discontinuity (found by an independent audit of the property)
+OPPOSITE_PAIRS = [((0, 255, 255), (249, 178, 183)), ((12, 187, 149), (255, 8, 163)), ((114, 161, 146), (248, 7, 154)), ((255, 255, 0), (2, 72, 143)),
+                  ((26, 206, 116), (250, 2, 230)), ((9, 247, 111), (242, 1, 255)), ((0, 10, 5), (10, 0, 5)), ((0, 5, 2), (5, 0, 3))]
+
+
+def chunk_opposite(pairs):
+    n, viol = _fast_pairs([(tuple(a), tuple(b)) for a, b in pairs])
+    disc = sum(1 for a, b in pairs if ciede2000.at_discontinuity(cielab.rgb_to_lab(tuple(a)), cielab.rgb_to_lab(tuple(b))))
+    return n, viol, disc
+
+
 def chunk_neighbours(args):
     """Every colour of a slab against its +1 neighbours along each axis (covers all unit steps)."""
     r, gs, bs = args
@@ -288,7 +303,31 @@ def run(ctx):
             distinct_nontrivial=m - len(cb) - len(greys), exhaustive=True, cube=len(cb), wrap_lo=len(lo), wrap_hi=len(hi))
     if lo and hi:
         ctx.sample({"subcheck": "de_hue_wrap", "a": list(lo[0]), "b": list(hi[0]), "reference": ciede2000.delta_e(lo[0], hi[0])})
+    # pairs with (almost) exactly opposite hues: the formula's one discontinuity.  Both branch values are accepted for a pair
+    # that the Lab tolerance can move across the line; anything else must match the reference as everywhere
+    anti = list(OPPOSITE_PAIRS)
+    for g in (5, 60, 128, 200):
+        rng = range(-5, 6)
+        for dr in rng:
+            for dg in rng:
+                for db in rng:
+                    if (dr, dg, db) != (0, 0, 0):
+                        a, b = (g + dr, g + dg, g + db), (g - dr, g - dg, g - db)
+                        if min(a + b) >= 0 and max(a + b) <= 255:
+                            anti.append((a, b))
+    na = nd = 0
+    for cnt, viol, disc in ctx.pmap(chunk_opposite, [anti[i:i + 400] for i in range(0, len(anti), 400)]):
+        na += cnt
+        nd += disc
+        ctx.add_violations(viol)
+    ctx.sub("opposite_hue_pairs", states=na, transitions=2 * na, evaluations=na, traces=na, distinct_nontrivial=na, exhaustive=True,
+            pairs_at_the_discontinuity=nd)
+    ctx.sample({"subcheck": "de_opposite_hues", "a": [0, 10, 5], "b": [10, 0, 5],
+                "reference_both_branches": [ciede2000.delta_e((0, 10, 5), (10, 0, 5)),
+                                            ciede2000.delta_e_lab(cielab.rgb_to_lab((0, 10, 5)), cielab.rgb_to_lab((10, 0, 5)), other_branch=True)]})
     ctx.assumptions += [
+        "a pair whose hue difference is within reach of 180 degrees under a Lab change of 0.05 has two CIE-conformant dE values (the "
+        "formula is discontinuous there); the library must match one of them",
         "sRGB->XYZ matrix derived from the primaries and D65 = (95.047, 100, 108.883); CIE f(t) with exact constants",
         "CIEDE2000 per Sharma/Wu/Dalal 2005; agreement bound 0.05 (Lab, dE), 1e-4 on the published pairs",
     ]
